@@ -966,9 +966,9 @@ class ReorientationSegment(DataSegment):
         self._validate_closed()
         self._verify_write_raw_details(data)
 
+        # NB: raw coordinates here are precisely the formatted coordinates of the parent
         subscript = _infer_subscript_for_write(data, start_indices, subscript, self.raw_shape)
-        parent_form_subscript = self.format_function.transform_formatted_slice(subscript)
-        self.parent.write(data, subscript=parent_form_subscript, **kwargs)
+        self.parent.write(data, subscript=subscript, **kwargs)
 
     def get_raw_bytes(self, warn: bool = True) -> Union[bytes, Tuple]:
         self._validate_closed()
